@@ -2660,6 +2660,23 @@ def el2(m, run):
                 bad.append(((p, t), why))
     run.ob('EL2.elevation-reduction-exact', '%s :: degree 1..4 x count 1..3' % fe.key, not bad, 'Eq. 5.36 as a polynomial identity in the control points' if not bad else
            'degree %d elevated %d times: %s   [%d of %d cases]' % (bad[0][0][0], bad[0][0][1], bad[0][1], len(bad), n), 'geomdl/helpers.py:%d in %s' % (fe.node.lineno, fe.key))
+    # inadmissible requests are rejected: a count that is not positive, a polygon that is not a Bezier polygon of the stated degree
+    rej = []
+    for what, args, kw in (('num = 0', [2, [[Sym('a%d' % i), Sym('b%d' % i)] for i in range(3)]], {'num': 0}),
+                           ('num = -1', [2, [[Sym('a%d' % i), Sym('b%d' % i)] for i in range(3)]], {'num': -1}),
+                           ('4 points for degree 2', [2, [[Sym('a%d' % i), Sym('b%d' % i)] for i in range(4)]], {'num': 1})):
+        sk = SK(m, ab)
+        sk.exact = True
+        try:
+            sk.call(fe, args, kw)
+            rej.append('%s is accepted' % what)
+        except Violation as v:
+            if v.rule != 'RAISE':
+                rej.append('%s fails with `%s` instead of being rejected' % (what, v.msg[:60]))
+        except Unsupported as ex:
+            raise AnalysisError('%s: interpreter met an unsupported construct: %s' % (fe.key, ex))
+    run.ob('EL2.elevation-reduction-exact', '%s :: inadmissible requests' % fe.key, not rej, 'non-positive counts and non-Bezier polygons are rejected' if not rej else
+           '; '.join(rej) + ': the request must be rejected, not silently replaced by another one', 'geomdl/helpers.py:%d in %s' % (fe.node.lineno, fe.key))
     fr = m.func('helpers.degree_reduction')
     bad, n = [], 0
     for p in range(2, 8):
@@ -4045,3 +4062,85 @@ def kd5(m, run, rule='KD5.coordinates-stored-as-floats'):
                 raise AnalysisError('%s: interpreter met an unsupported construct: %s' % (key, ex))
             run.ob(rule, key, why is None, 'floats in fresh lists%s' % ('; 2-D view [u][v] is flat[v + size_v * u]' if pdim == 2 else '') if why is None else why,
                    'geomdl/%s.py:%d in %s' % (fi.mod, fi.node.lineno, fi.key))
+
+
+# ====================================================================================== C08: degree_operations on recorder curves
+def do2(m, run):
+    """DO2: operations.degree_operations on a recorder curve, with decompose_curve, the two degree helpers and link_curves replaced by
+    recorders: every Bezier piece [a..a, b..b] of degree p gets, for an elevation by t (t = 1 .. p + 3, counts above p + 1 included), the
+    helper's result for (p, its points, num=t), degree p + t and the knot vector a x (p+1+t), b x (p+1+t); for a reduction the helper's
+    result, degree p - 1 and a x p, b x p; the pieces handed to link_curves are those pieces; the input gets the new degree"""
+    from fractions import Fraction as F
+    fi = m.func('operations.degree_operations')
+    bad, n = [], 0
+    for p in (1, 2, 3):
+        for t in list(range(1, p + 4)) + ([-1] if p >= 2 else []):
+            n += 1
+            made = []
+            bounds = [F(0), F(1, 2), F(2)]
+            pieces = []
+            for i in range(2):
+                c = rec_curve(made, p, [bounds[i]] * (p + 1) + [bounds[i + 1]] * (p + 1), [[('pt', i, k, c_) for c_ in range(2)] for k in range(p + 1)], False)
+                pieces.append(c)
+            obj = rec_curve(made, p, [F(0)] * (p + 1) + [F(1, 2)] + [F(2)] * (p + 1), [[('in', k, c_) for c_ in range(2)] for k in range(p + 2)], False)
+            calls, linked = [], []
+
+            def dec(sk, node, o_, *a, **k):
+                if o_ is not obj:
+                    raise Violation('DO2', 'decompose_curve is called on another object than the input', node)
+                return list(pieces)
+
+            def elev(sk, node, degree, cpts, *a, **k):
+                calls.append(('elev', degree, cpts, k.get('num', a[0] if a else 1)))
+                return [[('E', len(calls), i, c_) for c_ in range(2)] for i in range(len(cpts) + k.get('num', a[0] if a else 1))]
+
+            def redu(sk, node, degree, cpts, *a, **k):
+                calls.append(('red', degree, cpts, None))
+                return [[('R', len(calls), i, c_) for c_ in range(2)] for i in range(len(cpts) - 1)]
+
+            def link(sk, node, *crvs, **k):
+                linked.extend(crvs)
+                return ([F(0)], [[0.0, 0.0]], [], [])
+            ab = dict(STD_ABSTRACTED)
+            ab[('operations', 'decompose_curve')] = Py(dec, 'decompose_curve')
+            ab[('helpers', 'degree_elevation')] = Py(elev, 'degree_elevation')
+            ab[('helpers', 'degree_reduction')] = Py(redu, 'degree_reduction')
+            ab[('_operations', 'link_curves')] = Py(link, 'link_curves')
+            sk = SK(m, ab)
+            why = None
+            try:
+                sk.call(fi, [obj, [t]], {})
+                if len(calls) != 2:
+                    why = 'the degree helper is called %d times for 2 Bezier pieces' % len(calls)
+                elif linked != pieces:
+                    why = 'link_curves does not receive the processed pieces in order'
+                else:
+                    for i, (c, call) in enumerate(zip(pieces, calls)):
+                        a = c._a
+                        a0, b0 = bounds[i], bounds[i + 1]
+                        np_ = p + t if t > 0 else p - 1
+                        want_kv = [a0] * (np_ + 1) + [b0] * (np_ + 1)
+                        if call[0] != ('elev' if t > 0 else 'red') or call[1] != p or (t > 0 and call[3] != t):
+                            why = 'piece %d: the helper is called as %s(degree=%r, num=%r); expected %s of degree %d%s' % (i, call[0], call[1], call[3], 'elevation' if t > 0 else 'reduction', p, ' by %d' % t if t > 0 else '')
+                        elif [x[0][:3] if isinstance(x[0], tuple) else None for x in call[2]] != [('pt', i, k) for k in range(p + 1)]:
+                            why = 'piece %d: the helper receives other points than the control points of that piece' % i
+                        elif a.get('degree') != np_:
+                            why = 'piece %d gets degree %r, expected %d' % (i, a.get('degree'), np_)
+                        elif [F(x) for x in (a.get('knotvector') or [])] != want_kv:
+                            why = 'piece %d gets the knot vector %s; a Bezier piece of degree %d on [%s, %s] has %s' % (
+                                i, [str(x) for x in (a.get('knotvector') or [])], np_, a0, b0, [str(x) for x in want_kv])
+                        elif not (isinstance(a.get('_set'), list) and a['_set'] and a['_set'][0][0][0] == ('E' if t > 0 else 'R') and a['_set'][0][0][1] == i + 1):
+                            why = 'piece %d does not receive the points the helper returned for it' % i
+                        if why:
+                            break
+                    if why is None and obj._a.get('degree') != (p + t if t > 0 else p - 1):
+                        why = 'the input curve ends with degree %r, expected %d' % (obj._a.get('degree'), p + t if t > 0 else p - 1)
+            except Violation as v:
+                why = '%s %s' % (v.msg, v.where())
+            except Unsupported as ex:
+                raise AnalysisError('%s: interpreter met an unsupported construct: %s' % (fi.key, ex))
+            if why:
+                bad.append(((p, t), why))
+    run.ob('DO2.degree-operations-on-recorder-curves', '%s :: %d (degree, count) cases' % (fi.key, n), not bad, 'every Bezier piece gets its helper result, the new degree and a x (d+1), b x (d+1)' if not bad else
+           'degree %d, %s: %s   [%d of %d cases]' % (bad[0][0][0], 'elevation by %d' % bad[0][0][1] if bad[0][0][1] > 0 else 'reduction', bad[0][1], len(bad), n),
+           'geomdl/operations.py:%d in %s' % (fi.node.lineno, fi.key))
